@@ -1,0 +1,19 @@
+//go:build verif
+
+package config
+
+import (
+	"github.com/spf13/cobra"
+	"github.com/spf13/viper"
+)
+
+// VerifBoundKeys runs bindFlags on a fresh viper instance and returns that instance, so that a
+// checker can ask viper which key a flag given on the command line ends up under. Add-only; built
+// with the tag "verif" only.
+func VerifBoundKeys(cmd *cobra.Command) (*viper.Viper, error) {
+	v := viper.New()
+	if err := bindFlags("verif", cmd, v); err != nil {
+		return nil, err
+	}
+	return v, nil
+}
